@@ -39,7 +39,8 @@ BUDGET = {
 def generate(R: Draw, tier: str) -> dict:
     grp = R.weighted([("V", 7), ("X", 1), ("R", 2)])
     if grp == "V":
-        sref = R.choice(schemas.GROUP_V)
+        # doc_marks (blocks may carry marks: wrappers and joins have to respect them) gets extra weight
+        sref = R.choice(schemas.GROUP_V + ["doc_marks", "doc_marks"])
     elif grp == "X":
         sref = R.choice(schemas.GROUP_X)
     else:
